@@ -46,6 +46,7 @@ Rewrite(kind, a) ==
       [] kind = "pickle"      -> Len(Ev.new_ids) = 1 /\ PickleRoundTrip(a, Ev.new_ids[1])
       [] kind = "join"        -> Len(Ev.new_ids) = 1 /\ Join(a, Ev.src2, Ev.new_ids[1])
       [] kind = "update_renames" -> Ev.new_ids = <<a>> /\ UpdateRenames(a, A.ren)
+      [] kind = "overwrite_renames" -> Ev.new_ids = <<a>> /\ OverwriteRenames(a, A.ren)
       [] kind = "update_scope"   -> Ev.new_ids = <<a>> /\ UpdateScope(a, A.scope, A.ins, A.outs, A.exc)
       [] kind = "remove_scope"   -> Ev.new_ids = <<a>> /\ RemoveScope(a, A.ins, A.outs, A.exc)
       [] kind = "nest"        -> Ev.new_ids = <<a>> /\ NestKnown(o) /\ NestFuncs(a, NestS(o), OrigSet(o, SeqToSet(A.N)))
@@ -69,6 +70,7 @@ Refuse(kind, a) ==
       [] kind = "split"       -> ~SplitMustAccept(o) /\ Keep
       [] kind = "nest"        -> ~(NestKnown(o) /\ NestMustAccept(o, NestS(o), OrigSet(o, SeqToSet(A.N)))) /\ Discard(a, "refuse")
       [] kind = "update_renames" -> ~RenamesDefined(o, A.ren) /\ Discard(a, "refuse")
+      [] kind = "overwrite_renames" -> ~OverwriteDefined(o, A.ren) /\ Discard(a, "refuse")
       [] kind = "update_scope"   -> ~ScopeDefined(o, A.scope, A.ins, A.outs, A.exc) /\ Discard(a, "refuse")
       [] kind = "remove_scope"   -> ~ScopeDefined(o, "", A.ins, A.outs, A.exc) /\ Discard(a, "refuse")
       [] kind = "add_mapspec_axis" -> ~(HasCur(o, A.p) /\ AddAxisWellFormed(o, OrigOf(o, A.p), A.k)) /\ Discard(a, "refuse")
@@ -84,6 +86,7 @@ Mutate(kind, a) ==
       [] kind = "update_bound"    -> /\ HasCur(o, A.p) /\ HasCur(o, A.f) /\ OrigOf(o, A.f) \in AllOutputs(o.sem)
                                      /\ MutateBound(a, FuncOf(o.sem, OrigOf(o, A.f)), OrigOf(o, A.p), A.v)
       [] kind = "update_renames"  -> MutateRenames(a, A.ren)
+      [] kind = "overwrite_renames" -> OverwriteRenames(a, A.ren)
       [] OTHER -> FALSE
 TMutate == IsEvent("mutate") /\ Ev.id \in Live /\ Mutate(Ev.kind, Ev.id) /\ chk' = TRUE
 
